@@ -1,6 +1,10 @@
 package streamreader
 
-import "bytes"
+import (
+	"bytes"
+	"errors"
+	"io"
+)
 
 //go:generate mockgen -source reader.go -destination mocks/mocks.go -typed true
 
@@ -26,8 +30,12 @@ func New[T Request](stream Stream[T]) *reader[T] {
 func (r *reader[T]) Read(p []byte) (int, error) {
 	for len(p) > r.buf.Len() {
 		resp, err := r.stream.Recv()
-		if err != nil {
+		if errors.Is(err, io.EOF) {
 			break
+		}
+		if err != nil {
+			// A cancelled or broken stream is not the end of the content.
+			return 0, err
 		}
 
 		r.buf.Write(resp.GetChunk())
